@@ -225,10 +225,29 @@ class Machine(object):
       ev["outcome"] = "skip"
       return
     params = self.resolve_params(op.get("params", {}))
+    new_pre = None
+    if "pre" in op:        # swap the preprocessor (only generated right before a refit)
+      D = self.dataset(op["pre_data"]) if op["pre"] else None
+      if op["pre"] == "ndarray":
+        new_pre = (D.S, None)
+      elif op["pre"] == "list":
+        new_pre = (D.S.tolist(), None)
+      elif op["pre"] == "store":
+        st = world.PointStore(D.S)
+        new_pre = (st, st)
+      else:
+        new_pre = (None, None)
+      params["preprocessor"] = new_pre[0]
+      ev["pre"] = op["pre"]
     live["params"] = params
     live["handle"] = h
     live["dist_before"] = None
     self._call(ev, live, h.est.set_params, **params)
+    if new_pre is not None and ev["outcome"] == "ok":
+      h.pre, h.store = new_pre
+      h.pre_data = op["pre_data"] if op["pre"] else None
+      h.defined = False     # queries are undefined until the next fit
+      params = {k: v for k, v in params.items() if k != "preprocessor"}
     h.dirty = True
     if ev["outcome"] == "ok":
       h.params_desc.update(op.get("params", {}))
